@@ -21,7 +21,7 @@ type C18 struct{}
 
 func (e *C18) Name() string { return "fn.c18" }
 func (e *C18) Rule() string {
-	return "seeded populations of 1-4 settings (creation times equal/different, matchLabels/matchExpressions/empty (select-everything) selectors, with/without reference, optionally one unusable selector, optionally one in another namespace) x 1-4 labelled nodes; every permutation of the reconcile order (<=24), two passes each, through the real setting reconciler; then one real replica-set sync whose created pods show which setting was attached to which node; non-trivial = distinct populations with at least two settings overlapping on a node"
+	return "seeded populations of 1-4 settings (creation times equal/different, matchLabels/matchExpressions/empty (select-everything) selectors, with/without reference, some being deleted behind a finalizer, optionally one unusable selector, optionally one in another namespace) x 1-4 labelled nodes; every permutation of the reconcile order (<=24), two passes each, through the real setting reconciler; then one real replica-set sync whose created pods show which setting was attached to which node; non-trivial = distinct populations with at least two settings overlapping on a node"
 }
 func (e *C18) Cases(tier string, _ int64) int {
 	if tier == "thorough" {
@@ -61,6 +61,9 @@ type c18Setting struct {
 	Sel     metav1.LabelSelector
 	Created time.Duration
 	CPU     string
+	// Terminating: the setting is being deleted and a finalizer keeps it; until it is gone it is a setting like
+	// any other (it still selects its nodes, still wins or loses conflicts, still applies when valid)
+	Terminating bool
 }
 
 func selMatches(sel *metav1.LabelSelector, lbls map[string]string) bool {
@@ -141,6 +144,7 @@ func (e *C18) Run(ctx *core.Ctx, idx int) {
 		case 4:
 			d.Sel = metav1.LabelSelector{MatchExpressions: []metav1.LabelSelectorRequirement{{Key: "zone", Operator: metav1.LabelSelectorOpNotIn, Values: []string{"a"}}}}
 		}
+		d.Terminating = r.Intn(6) == 0
 		if withBroken && i == 0 {
 			d.Broken = true
 			d.Sel = metav1.LabelSelector{MatchExpressions: []metav1.LabelSelectorRequirement{{Key: "zone", Operator: "Bogus", Values: []string{"a"}}}}
@@ -192,6 +196,11 @@ func (e *C18) Run(ctx *core.Ctx, idx int) {
 				case 2:
 					st.Spec.Reference = &autoscalingv1.CrossVersionObjectReference{Kind: "ExtendedDaemonSet", Name: "foo"}
 				}
+			}
+			if d.Terminating {
+				dt := metav1.NewTime(kit.T0.Add(d.Created).Add(time.Second))
+				st.DeletionTimestamp = &dt
+				st.Finalizers = []string{"example.com/hold"}
 			}
 			st.Spec.NodeSelector = d.Sel
 			st.Spec.Containers = []v1.ExtendedDaemonsetSettingContainerSpec{{Name: "main", Resources: corev1.ResourceRequirements{Requests: corev1.ResourceList{"cpu": resource.MustParse(d.CPU)}}}}
